@@ -315,8 +315,52 @@ def proxy_enum_sweep(ctx):
                     ctx.count("proxy-enum-roundtrip")
 
 
+def proxy_lexical_reads(ctx):
+    """"every schema-valid lexical form met in a document can be read" - through the PROXY properties, some of which read
+    an attribute by hand instead of through its declaration: universal measures and percent strings put into the XML"""
+    from harness.props.c09 import build_deck
+
+    prs = build_deck()
+    s1 = prs.slides[1]
+    sp = s1.shapes[0]
+    pic = [s for s in s1.shapes if type(s).__name__ == "Picture"][0]
+    tbl = [s for s in s1.shapes if getattr(s, "has_table", False)][0].table
+    cell = tbl.cell(0, 0)
+    cell.margin_left = 5
+    para = sp.text_frame.paragraphs[0]
+    para.line_spacing = 1.5
+    para.space_before = 12700
+    pic.crop_left = 0.1
+    sp.text_frame.margin_left = 5
+    A = "{http://schemas.openxmlformats.org/drawingml/2006/main}"
+    cases = [
+        ("cell.margin_left", lambda: cell._tc.tcPr, "marL", "0.1in", lambda: cell.margin_left, 91440),
+        ("cell.margin_top", lambda: cell._tc.tcPr, "marT", "2.54cm", lambda: cell.margin_top, 914400),
+        ("text_frame.margin_left", lambda: sp.text_frame._txBody.bodyPr, "lIns", "0.5in", lambda: sp.text_frame.margin_left, 457200),
+        ("shape.left", lambda: sp._element.spPr.xfrm.off, "x", "1in", lambda: sp.left, 914400),
+        ("shape.top", lambda: sp._element.spPr.xfrm.off, "y", "72pt", lambda: sp.top, 914400),
+        ("paragraph.line_spacing", lambda: para._p.pPr.lnSpc.spcPct, "val", "150%", lambda: para.line_spacing, 1.5),
+        ("paragraph.line_spacing", lambda: para._p.pPr.lnSpc.spcPct, "val", "112.5%", lambda: para.line_spacing, 1.125),
+        ("picture.crop_left", lambda: pic._element.blipFill.srcRect, "l", "25%", lambda: pic.crop_left, 0.25),
+        ("picture.crop_left", lambda: pic._element.blipFill.srcRect, "l", "12.5%", lambda: pic.crop_left, 0.125),
+    ]
+    for name, el, attr, lex, read, want in cases:
+        ctx.case(key=("proxy-read", name, lex))
+        try:
+            el().set(attr, lex)
+            got = read()
+        except Exception as e:  # noqa
+            ctx.fail(f"unreadable:{name}:{lex}", f"{name}: the schema-valid value {attr}={lex!r} cannot be read: {type(e).__name__}: {str(e)[:100]}", {"property": name, "lexical": lex})
+            continue
+        if abs(float(got) - float(want)) > 1e-6 * max(1.0, abs(float(want))):
+            ctx.fail(f"misread:{name}:{lex}", f"{name}: {attr}={lex!r} reads {got!r}, expected {want!r}", {"property": name, "lexical": lex})
+        else:
+            ctx.count("proxy-lexical-read")
+
+
 def correspond(ctx):
     proxy_enum_sweep(ctx)
+    proxy_lexical_reads(ctx)
     prs, S = pairs()
     probe = xsdprobe.Probe(common.REPO, [xt for (_, xt) in prs])
     lines, impl, meta = [], [], []
